@@ -12,7 +12,8 @@ class ENotifer(object):
         super().__init__()
 
     def notify(self, notification):
-        notification.notifier = notification.notifier or self
+        if notification.notifier is None:
+            notification.notifier = self
         resource = self.eResource
         resource_listeners = []
         resource_eternals = []
